@@ -99,6 +99,31 @@ def check_case(case, ctx):
             violation('valid_bounds_rejected', case, f'{variant}(min_decimal={mnv!r}, max_decimal={mxv!r}) raised {got}', ctx)
         ctx.case(case, bool(allowed), sample={'call': f'{variant}(min_decimal={mnv!r}, max_decimal={mxv!r})', 'outcome': got})
         return
+    if case['mode'] == 'ext':
+        # extensible form: prefix + X + suffix matches prefix+candidate+suffix in full iff the candidate is valid
+        from pregex.core.pre import Pregex
+        prefix, suffix = case['prefix'], case['suffix']
+        q = Pregex(prefix) + make(variant, start, end, mn, mx, inc, ext=True)
+        if suffix:
+            q = q + suffix
+        acc = rej = 0
+        for t in case['candidates']:
+            if t[:1] in ('+', '-'):
+                continue
+            want = model(variant, inc, start, end, mn, mx, t)
+            if want is None:
+                continue
+            got = q.is_exact_match(prefix + t + suffix)
+            acc += want
+            rej += not want
+            if got != want:
+                violation('extensible', dict(case, candidates=[t]), f'(Pregex({prefix!r}) + {what[:-1]}, is_extensible=True) + {suffix!r})'
+                          f'.is_exact_match({prefix + t + suffix!r}) = {got}; model {want}', ctx)
+                break
+        ctx.count('mode:ext')
+        nt = acc > 0 and rej > 0
+        ctx.case(case, nt, sample={'call': what + ' extensible', 'prefix': prefix, 'suffix': suffix, 'candidates': case['candidates'][:6]} if nt else None)
+        return
     p = make(variant, start, end, mn, mx, inc)
     rx = re.compile(str(p), dsl.FLAGS)
     acc = rej = 0
@@ -148,8 +173,13 @@ def gen_case(draw):
                          st.integers(0, 9)).map(lambda t: ''.join(str((t[1] + i) % 10) for i in range(max(0, t[0]))))
     cand = st.tuples(st.sampled_from(['', '', '', '+', '-']), st.one_of(num, num, st.just(''), digits),
                      st.sampled_from(['.', '.', '.', '.', '', '..', ',']), st.one_of(frac_near(0), frac_near(0), digits)).map(''.join)
+    cands = draw(st.lists(cand, min_size=4, max_size=12))
+    if draw(st.integers(0, 3)) == 0:
+        return {'mode': 'ext', 'variant': draw(st.sampled_from(['Decimal', 'UnsignedDecimal'])), 'include_sign': False, 'start': start,
+                'end': end, 'min': mn, 'max': mx, 'candidates': cands, 'prefix': draw(st.sampled_from(['id', 'x=', '#', 'No ', '('])),
+                'suffix': draw(st.sampled_from(['', '', 'rad', ' m', ')', '%']))}
     return {'mode': 'match', 'variant': variant, 'include_sign': inc, 'start': start, 'end': end, 'min': mn, 'max': mx,
-            'candidates': draw(st.lists(cand, min_size=4, max_size=12))}
+            'candidates': cands}
 
 
 def shards(tier):
